@@ -260,6 +260,11 @@ where
     let mut mean = zero;
     let mut s = zero;
     for (&x, &w) in arr.iter().zip(weights.iter()) {
+        if w == zero {
+            // A zero weight contributes nothing (and `w / weight_sum` would be
+            // 0/0 while the running weight sum is still zero).
+            continue;
+        }
         weight_sum += w;
         let x_minus_mean = x - mean;
         mean += (w / weight_sum) * x_minus_mean;
